@@ -110,6 +110,30 @@ def _edge_set(r):
     return {frozenset((u, v)) for u, v in r.edges()}
 
 
+def stale_partition(g, rng):
+    """The same molecule carrying a STALE 'partition' attribute (what a graph looks like after an earlier, coarser partitioning step of the
+    library's step-by-step API, or after being built from another graph): canonicalize_molecule must compute its classes from scratch."""
+    mode = rng.choice(["atomic-number", "random", "constant", "degree"])
+    ranks = {z: i for i, z in enumerate(sorted({d[K.ATOMIC_NUMBER] for _, d in g.nodes(data=True)}))}
+    for v, d in g.nodes(data=True):
+        d[K.PARTITION] = (ranks[d[K.ATOMIC_NUMBER]] if mode == "atomic-number" else rng.randint(0, 3) if mode == "random" else 1 if mode == "constant" else g.degree(v))
+    if S.ctx is not None:
+        S.ctx.count("shadow_inputs_with_stale_partition")
+    return g
+
+
+def shadow_input(m, result, k):
+    """k-th shadow description of the molecule: a harness relabelling of the argument; every third one carries a stale partition attribute,
+    every fourth one is a relabelling of the RESULT (a canonical graph renumbered with plain networkx, graph-level attributes carried along)."""
+    src = result if (k % 4 == 3 and result is not None) else m
+    if src is result and S.ctx is not None:
+        S.ctx.count("shadow_inputs_relabelled_canonical_graph")
+    m2, perm = harness_relabel(src, S.rng)
+    if k % 3 == 1:
+        stale_partition(m2, S.rng)
+    return m2, perm
+
+
 def check_c04(m, result):
     """Labelled-graph equality of canonicalize(m) and canonicalize(pi(m)) for harness-drawn pi."""
     canon = S.orig["canonicalize_molecule"]
@@ -117,8 +141,10 @@ def check_c04(m, result):
     if n > SHADOW_MAX_N:
         S.ctx and S.ctx.skip("c04_shadow_too_large")
         return None
+    S.shadow_counter = getattr(S, "shadow_counter", 0)
     for k in range(S.k_relabel):
-        m2, perm = harness_relabel(m, S.rng)
+        S.shadow_counter += 1
+        m2, perm = shadow_input(m, result, S.shadow_counter)
         r2 = canon(m2)
         _mon("c04_shadow_compare")
         if _node_map(result) != _node_map(r2) or _edge_set(result) != _edge_set(r2):
@@ -138,8 +164,10 @@ def check_c01_on_canon(m, result):
         S.ctx and S.ctx.skip("c01_shadow_too_large")
         return None
     s1 = ser(result.copy())
+    S.shadow_counter = getattr(S, "shadow_counter", 0)
     for k in range(S.k_relabel):
-        m2, perm = harness_relabel(m, S.rng)
+        S.shadow_counter += 1
+        m2, perm = shadow_input(m, result, S.shadow_counter)
         s2 = ser(canon(m2))
         _mon("c01_shadow_compare")
         if s1 != s2:
@@ -262,8 +290,10 @@ def check_c13(m, result):
     if n <= SHADOW_MAX_N and all(TAG in d for _, d in m.nodes(data=True)):
         canon = S.orig["canonicalize_molecule"]
         t1 = {d[TAG]: d.get(K.PARTITION) for _, d in result.nodes(data=True)}
+        S.shadow_counter = getattr(S, "shadow_counter", 0)
         for k in range(S.k_relabel):
-            m2, perm = harness_relabel(m, S.rng)
+            S.shadow_counter += 1
+            m2, perm = shadow_input(m, result, S.shadow_counter)
             r2 = canon(m2)
             _mon("c13_label_independence")
             t2 = {d.get(TAG): d.get(K.PARTITION) for _, d in r2.nodes(data=True)}
